@@ -100,6 +100,7 @@ pub struct CommandModel
     pub out : [u8; 2],              // content it writes to target i
     pub omit : [bool; 2],           // "does not produce declared target i"
     pub fail_code : bool,           // exits non-zero (and, per C08's assumption, writes nothing)
+    pub first_line_fails : bool,    // two script lines: the first exits non-zero, the second succeeds and writes the targets
     pub spawn_error : bool,         // the shell could not be started
     pub fresh_mtime : [u8; 2],      // mtime of its write to target i (distinct writes carry distinct mtimes)
     pub exec_out : [bool; 2],
@@ -153,7 +154,7 @@ pub static mut FS : Fs = Fs
     cache : [ABSENT; NCACHE],
     cache_dir : true,
     cmd : CommandModel { ntargets : 0, target_slot : [0, 1], out : [0, 0], omit : [false, false],
-        fail_code : false, spawn_error : false, fresh_mtime : [0, 0], exec_out : [false, false] },
+        fail_code : false, first_line_fails : false, spawn_error : false, fresh_mtime : [0, 0], exec_out : [false, false] },
     in_scope : [false; NWS],
     n_mutations : 0, n_renames : 0, n_exec : 0, n_creates : 0, n_chmods : 0,
     ws_touched : [false; NWS],
@@ -610,6 +611,13 @@ impl System for SymSystem
                 }
             }
             i += 1;
+        }
+        if f.cmd.first_line_fails
+        {
+            let mut v = Vec::with_capacity(2);
+            v.push(Ok(CommandLineOutput { out : String::new(), err : String::new(), code : Some(1), success : false }));
+            v.push(Ok(CommandLineOutput { out : String::new(), err : String::new(), code : Some(0), success : true }));
+            return v;
         }
         vec![Ok(CommandLineOutput { out : String::new(), err : String::new(), code : Some(0), success : true })]
     }
